@@ -613,6 +613,11 @@ func poolsByNamespace(pools map[string]*Pool) map[string][]string {
 			poolsForNamespace[namespace] = append(poolsForNamespace[namespace], pool.Name)
 		}
 	}
+	// The pools are visited in map order: sort each list so that the index
+	// does not depend on it.
+	for _, names := range poolsForNamespace {
+		sort.Strings(names)
+	}
 	return poolsForNamespace
 }
 
